@@ -295,9 +295,10 @@ def run(ctx) -> None:
     # ------------------------------------------------------------------ R5 aggregation
     coll = None
     for n, m in a.func_mutations(runner):
-        if m.kind == "call:append" and len(m.path) == 1 and m.path[0] != "self":
+        if m.kind in ("call:append", "call:insert", "call:add") and len(m.path) == 1 and m.path[0] != "self":
             hs = [h for h in walk_own(runner.node) if isinstance(h, ast.ExceptHandler) and any(x is m.node for x in ast.walk(h))]
-            if hs and hs[0].name and m.node.args and isinstance(m.node.args[0], ast.Name) and m.node.args[0].id == hs[0].name:
+            # (the order of the exceptions inside the group is not part of the statement)
+            if hs and hs[0].name and m.node.args and isinstance(m.node.args[-1], ast.Name) and m.node.args[-1].id == hs[0].name:
                 coll = m.path[0]
     if coll is None:
         rep.violate("C01.R5", runner, runner.node, "exceptions raised by callbacks are not collected")
@@ -392,6 +393,24 @@ def run(ctx) -> None:
 
     add_res = an.ctx_method("add_resource")
     route(add_res, "add_resource(teardown_callback=)", cb_pred=lambda c: c.args and isinstance(c.args[0], ast.Name) and c.args[0].id == "teardown_callback")
+    # ... whenever a callback was given: the registration depends on nothing but `<cb> is not None`
+    from .discharge import controlling_conditions as _cc
+
+    arcfg = a.cfg(add_res)
+    for call_, c_ in a.func_calls(add_res):
+        if c_.kind == "func" and c_.func is register and call_.args and isinstance(call_.args[0], ast.Name):
+            cbp = call_.args[0].id
+            nn_ = arcfg.nodes_containing(call_)
+            from .discharge import controlling_tests as _ct
+
+            # successful (normal) paths may skip the registration only through the
+            # "no callback given" side of a test on the callback parameter itself
+            skip_ok = []
+            for t_, lab_ in (_ct(arcfg, nn_[0]) if nn_ else []):
+                if isinstance(t_.ast, ast.AST) and names_in(t_.ast) == {cbp}:
+                    skip_ok += [d_ for d_, l_ in t_.succ if l_ in ("t", "f") and l_ != lab_]
+            on_all = bool(nn_) and arcfg.all_paths_pass(arcfg.entry, [arcfg.exit], [nn_[0].id] + skip_ok, edge_ok=lambda s_, d_, lab: lab not in ("e", "h"))
+            rep.check("C01.R8", on_all, add_res, call_, f"a given `{cbp}` is registered on every successful path (skipped only when no callback was given)", f"some successful path through add_resource does not register a given `{cbp}`: a resource can be added whose teardown callback is silently never run")
     route(an.ctx_method("start_service_task"), "the service-task finalizer")
     shortcut = ctx.p.modules[register.module.name].functions.get("add_teardown_callback")
     if shortcut is not None:
@@ -409,13 +428,41 @@ def run(ctx) -> None:
         rep.violate("C01.R8", ct_fn if isinstance(ct_fn, FuncInfo) else None, None, "context_teardown does not register a teardown callback")
     else:
         route(wrapper, "@context_teardown", expect_flag=True)
-        tcb = [nf for nf in wrapper.nested.values()]
+        # the callback that is registered, and the generator it drives: both must belong to
+        # THIS call of the decorated function (a callback or generator variable shared by all
+        # calls makes a second call overwrite the first call's pending teardown)
+        reg_hits = [call for call, c in a.func_calls(wrapper) if c.kind == "func" and c.func is register]
+        cb_expr = reg_hits[0].args[0] if reg_hits and reg_hits[0].args else None
+        bound_args: list = []
+        if isinstance(cb_expr, ast.Call) and call_name(cb_expr) == "partial" and cb_expr.args:
+            bound_args = list(cb_expr.args[1:])
+            cb_expr = cb_expr.args[0]
+        cb_fn = None
+        if isinstance(cb_expr, ast.Name):
+            cb_fn = wrapper.nested.get(cb_expr.id) or (ct_fn.nested.get(cb_expr.id) if isinstance(ct_fn, FuncInfo) else None)
+            if cb_fn is None:
+                r_ = a.r.resolve_name(wrapper, cb_expr.id)
+                cb_fn = r_ if isinstance(r_, FuncInfo) else None
+        gen_vars = {t.id for n in walk_own(wrapper.node) if isinstance(n, ast.Assign) and isinstance(n.value, ast.Call) and isinstance(n.value.func, ast.Name) and n.value.func.id in (ct_fn.params if isinstance(ct_fn, FuncInfo) else []) for t in n.targets if isinstance(t, ast.Name)}
+        shared = {x for n in walk_own(wrapper.node) if isinstance(n, (ast.Nonlocal, ast.Global)) for x in n.names}
+        if cb_fn is None or not gen_vars:
+            rep.unrecognised("C01.R8", wrapper, reg_hits[0] if reg_hits else wrapper.node, "cannot identify the registered teardown callback / the generator created for this call")
+        else:
+            per_call_gen = not (gen_vars & shared)
+            per_call_cb = cb_fn.parent is wrapper or (bool(bound_args) and all(isinstance(x, ast.Name) and x.id in gen_vars for x in bound_args[:1]))
+            rep.check("C01.R8", per_call_gen and per_call_cb, wrapper, reg_hits[0], "each call of a @context_teardown function registers its own callback closing over its own generator", "the generator variable / the teardown callback is shared between calls of the decorated function: a second call overwrites the first one's generator, whose teardown part then never runs (and the second's runs twice)")
+        tcb = [cb_fn] if cb_fn is not None else []
         if tcb:
             t = tcb[0]
             sends = [c for c, _ in a.func_calls(t) if call_name(c) == "asend" and c.args and isinstance(c.args[0], ast.Name) and c.args[0].id in t.params]
             rep.check("C01.R8", bool(sends), t, t.node, "the teardown callback sends the received exception into the generator", "the generator does not receive the exception that ended the context")
             fin = [tr for tr in walk_own(t.node) if isinstance(tr, ast.Try) and any(isinstance(x, ast.Call) and call_name(x) == "aclose" for s in tr.finalbody for x in ast.walk(s))]
-            rep.check("C01.R8", bool(fin), t, t.node, "the generator is closed in a finally block", "the generator is not closed on every path")
+            # (closing the generator afterwards is good hygiene but not part of the statement:
+            # only a generator that yields a second time would notice)
+            if fin:
+                rep.hold("C01.R8", t, t.node, "the generator is closed in a finally block", nontrivial=False)
+            else:
+                rep.note("C01.R8: the @context_teardown callback does not close its generator in a finally block (not required by the statement)")
     rep.floor("C01.R8", routes, 5)
 
     # ------------------------------------------------------------------ R9 closed afterwards
